@@ -45,6 +45,8 @@ type verifC04State struct {
 	sessBefore map[string]*structs.Session
 	heldBefore map[string][]verifC04Held
 	excused    map[string]bool // sessions removed by the known-finding path: their dangling references are not re-reported
+	// status of every check a session is bound to, before the step (node/check id, lower case -> status)
+	boundBefore map[string]map[string]string
 }
 
 func verifC04Attach(x *kvm.Machine) {
@@ -53,8 +55,17 @@ func verifC04Attach(x *kvm.Machine) {
 		st.sessBefore = map[string]*structs.Session{}
 		st.heldBefore = map[string][]verifC04Held{}
 		_, ss, _ := x.W.Store.SessionList(nil, nil)
+		st.boundBefore = map[string]map[string]string{}
 		for _, s := range ss {
 			st.sessBefore[s.ID] = s
+			for _, cid := range s.CheckIDs() {
+				if _, hc, _ := x.W.Store.NodeCheck(s.Node, cid, nil, ""); hc != nil {
+					if st.boundBefore[s.ID] == nil {
+						st.boundBefore[s.ID] = map[string]string{}
+					}
+					st.boundBefore[s.ID][strings.ToLower(s.Node)+"/"+strings.ToLower(string(cid))] = hc.Status
+				}
+			}
 		}
 		_, ents, _ := x.W.Store.KVSList(nil, "", nil)
 		for _, e := range ents {
@@ -264,6 +275,20 @@ func verifC04Invariants(x *kvm.Machine, st *verifC04State, op *vs.Op, res vs.Res
 				report("C04/I4-session-bound-to-missing-check/after="+op.Kind, sid, "after %s: session %s is bound to check %q on %s which does not exist", op.Desc, sid, cid, n)
 			} else if k.status == api.HealthCritical && k.typ != "session" {
 				report("C04/I4-session-bound-to-critical-check/after="+op.Kind, sid, "after %s: session %s is bound to critical check %q on %s", op.Desc, sid, cid, n)
+			}
+		}
+	}
+	// I7 (transition form of "a session ends when a check it is bound to goes critical", every check type included:
+	// a check of type "session" may be critical when a session is created on it, but when it TURNS critical the
+	// sessions bound to it are invalidated like those of any other check)
+	for sid, links := range st.boundBefore {
+		if sessions[sid] == nil {
+			continue
+		}
+		for key, before := range links {
+			if after, ok := checks[key]; ok && before != api.HealthCritical && after.status == api.HealthCritical {
+				report("C04/I7-session-survives-bound-check-turning-critical/type="+after.typ+"/after="+op.Kind, sid,
+					"after %s: check %s went %s -> critical and session %s, bound to it before the step, still exists", op.Desc, key, before, sid)
 			}
 		}
 	}
